@@ -125,8 +125,10 @@ def lv4_to_partition(info, pos):
     return view_to_file(info, info['ivfc_off'][3] + pos)
 
 
-def build_diff(rng, data, active=0, **kw):
+def build_diff(rng, data, active=0, desc_pad=0, **kw):
     desc, part, info = build_partition(rng, data, **kw)
+    # the header may declare a descriptor that is LARGER than DIFI + IVFC + DPFS + master hashes (trailing bytes the hash covers too)
+    desc = desc + rng.rbytes(desc_pad)
     other = rng.rbytes(len(desc))
     sec_off = 0x200
     prim_off = sec_off + len(desc) + rng.pick([0, 0x10])
